@@ -286,3 +286,9 @@ Fixpoint grants (st : state * list thr) (ts : list nat) : list (nat * nat) * sta
               let '(o, fin) := grants st1 r in
               ((c, length (emits (fst st1))) :: o, fin)
   end.
+
+(* the threads' states after a sequence of grants; the observation paired with the granted threads *)
+Definition gstep (st : state * list thr) (t : nat) : state * list thr := fst (grant st t).
+Definition final_st (st : state * list thr) (ts : list nat) : state * list thr := fold_left gstep ts st.
+Definition zip3 (ts : list nat) (obs : list (nat * nat)) : list (nat * nat * nat) :=
+  map (fun p => (fst p, fst (snd p), snd (snd p))) (combine ts obs).
